@@ -143,6 +143,15 @@ def native_checks(run, seeds):
         got = ({str(k): v for k, v in p["process_noise"].items()}, p["sensor_noises"])
         if got != ({"a": 3.0, "b": 1e-06}, {"position": {"x": 7.0, "xv": 8.0}, "velocity": {"v": 9.0}}):
             problems.append(f"_inverse_flatten_scoring_params gave {got}")
+        # the Config object an estimator was given may be shared (clones, grid searches): set_params must REPLACE it, never edit it
+        shared = py.Config(innovation_filtering=4.0, max_dt_sec=0.05)
+        pyS, uiS, estS, infoS = sklearn_native.simple_adapter(seed, 1, 1)
+        estS.set_params(config=shared)
+        estS.set_params(max_dt_sec=0.5, innovation_filtering=2.0)
+        if (shared.max_dt_sec, shared.innovation_filtering) != (0.05, 4.0):
+            problems.append(f"set_params(max_dt_sec=0.5, innovation_filtering=2.0) edited the Config object it was given in place: it now reads {shared}")
+        if (estS.get_params()["config"].max_dt_sec, estS.get_params()["config"].innovation_filtering) != (0.5, 2.0):
+            problems.append(f"set_params(max_dt_sec=0.5, innovation_filtering=2.0) left the estimator with {estS.get_params()['config']}")
         # a Config field whose CURRENT value is None (filtering off) is still a Config field
         py0, ui0, est0, info0 = sklearn_native.simple_adapter(seed, 1, 1, {"innovation_filtering": None})
         before0 = est0.get_params()["config"]
